@@ -85,8 +85,17 @@ impl Monitor for ExchangeMon {
                 st.syncs.clear();
                 st.fups.clear();
                 st.resps.clear();
+                st.last_raw_sync = None;
             }
             st.parent = now;
+        } else if st.parent.is_some() {
+            // the port has left the slave state: a later slave state starts from nothing (the
+            // library keeps no half exchange and no raw sync offset across it either)
+            st.parent = None;
+            st.syncs.clear();
+            st.fups.clear();
+            st.resps.clear();
+            st.last_raw_sync = None;
         }
         match ev {
             Ev::RawAt(p, h, bits) => self.note_frame(st, run, &unhex(h), Some(bits.parse().unwrap()), *p),
